@@ -53,17 +53,21 @@ enum CallId : int {
   K_MOVED_VIEW_WRITE = 35,        // mutating: Map<G> m2(std::move(m)); m2 = value   (a moved-to view shows the same memory)
   K_RVALUE_VIEW_OPS = 36,         // non-mutating: operators and const members applied to RVALUE views
                                   //   Map<G>(p) * g, std::move(view) + a, m.part() * x, m.part().inverse() ... write nothing
-  K_NCALLS = 37
+  K_DIFF_WRT_VIEW = 37,           // mutating: diff::dr<1|2, Numerical>(f, wrt(view)) perturbs its argument in place and steps back:
+                                  //   results and the coefficients left behind equal those for a value object
+  K_MINIMIZE_WRT_VIEW = 38,       // mutating: minimize(f, wrt(view)): the view ends where a value object ends
+  K_NCALLS = 39
 };
 
 inline const char* const kCallNames[K_NCALLS] = {
   "setIdentity", "assign_from", "mul_assign", "plus_assign", "coeffs_write_one", "data_write_one", "coeffs_assign_all",
   "copy_view_setIdentity", "map_assign_map", "part_assign", "part_reset", "part_update", "part_raw_write", "construct_into",
   "inverse", "log", "Ad", "matrix", "compose", "rminus", "rplus", "isApprox", "to_value", "cast", "part_read", "action",
-  "coeffs_read", "part_const_ops", "assign_from_temp_view", "value_from_temp_view", "part_to_value", "part_from_temp_view", "map_move_assign", "setRandom", "helpers", "moved_view_write", "rvalue_view_ops"};
+  "coeffs_read", "part_const_ops", "assign_from_temp_view", "value_from_temp_view", "part_to_value", "part_from_temp_view", "map_move_assign", "setRandom", "helpers", "moved_view_write", "rvalue_view_ops", "diff_wrt_view", "minimize_wrt_view"};
 
 inline bool call_mutates(int id) { return id <= K_CONSTRUCT_INTO || id == K_ASSIGN_FROM_TEMP_VIEW || id == K_PART_FROM_TEMP_VIEW ||
-         id == K_MAP_MOVE_ASSIGN || id == K_SET_RANDOM || id == K_MOVED_VIEW_WRITE; }
+         id == K_MAP_MOVE_ASSIGN || id == K_SET_RANDOM || id == K_MOVED_VIEW_WRITE || id == K_DIFF_WRT_VIEW ||
+         id == K_MINIMIZE_WRT_VIEW; }
 inline bool call_uses_part(int id) {
   return (id >= K_PART_ASSIGN && id <= K_PART_RAW_WRITE) || id == K_PART_READ || id == K_PART_CONST_OPS || id == K_PART_TO_VALUE ||
          id == K_PART_FROM_TEMP_VIEW || id == K_RVALUE_VIEW_OPS;
